@@ -95,6 +95,20 @@ def run_task(task):
     mod = engine(prop)
     mode = task.get("mode", "run")
     t0 = time.time()
+    if mode == "enum_probe":
+        from .procs import fork_call
+        item = mod.enum_item(task["item_seed"])
+        return {"status": "probe", "probe": fork_call(mod.enum_probe, (item,), timeout=120), "item_seed": task["item_seed"]}
+    if mode == "enum_points":
+        item = mod.enum_item(task["item_seed"])
+        out = mod.enum_points(item, task["which"], task["ks"], task["ref"])
+        out.update({"status": "enum", "item_seed": task["item_seed"], "which": task["which"], "string": item["multi"]})
+        if out["failures"]:
+            first = out["failures"][0]
+            out["replay"] = {"property": prop, "class": violation_class(first["violations"][0], prop),
+                             "violation": first["violations"][0], "run_seed": None,
+                             "scenario": mod.enum_scenario(item, first["k"], task["which"])}
+        return out
     if mode == "run":
         run_seed = H(task["seed"], prop, task["run"])
         scenario = mod.generate(run_seed, prop, task.get("tier", "quick"))
